@@ -401,8 +401,18 @@ fn load_replays<E: Engine + ?Sized>(e: &E, prop: &str, dir: &str) -> Vec<(String
                         continue;
                     }
                     let p_prop = cj.get("prop").and_then(|x| x.as_str()).unwrap_or(prop).to_string();
-                    if p_prop != prop {
-                        continue;
+                    match e.gen_tag() {
+                        // profile-pair replays carry the generator's property id and pair_of = C11
+                        Some(g) => {
+                            if cj.get("pair_of").and_then(|x| x.as_str()) != Some("C11") || p_prop != g {
+                                continue;
+                            }
+                        }
+                        None => {
+                            if p_prop != prop || cj.get("pair_of").is_some() {
+                                continue;
+                            }
+                        }
                     }
                     match e.case_from_json(prop, cj) {
                         Some(c) => v.push((p.display().to_string(), c)),
@@ -648,8 +658,26 @@ pub fn main_with<E: Engine>(e: &E, chk: bool) -> i32 {
                 return 2;
             }
         };
-        let ev = e.eval(&prop, &c, chk, &kf);
-        println!("replay {} profile={} case={}", file, if chk { "chk" } else { "rel" }, e.case_json(&prop, &c));
+        let is_pair = cj.get("pair_of").and_then(|x| x.as_str()) == Some("C11");
+        if is_pair && !chk {
+            // the non-checking binary only serves as the child of a profile-pair replay
+            return 0;
+        }
+        let ev = if is_pair {
+            match get("--child") {
+                Some(ch) => crate::pair::set_child(&ch),
+                None => {
+                    eprintln!("a C11 replay needs --child <binary built with the other profile>");
+                    return 2;
+                }
+            }
+            let pe = crate::pair::PairEngine { inner: e, gen: prop.clone() };
+            pe.eval("C11", &c, true, &kf)
+        } else {
+            e.eval(&prop, &c, chk, &kf)
+        };
+        let prop = if is_pair { "C11".to_string() } else { prop };
+        println!("replay {} profile={} case={}", file, if is_pair { "pair(chk vs rel)" } else if chk { "chk" } else { "rel" }, e.case_json(if is_pair { cj.get("prop").and_then(|x| x.as_str()).unwrap_or("") } else { &prop }, &c));
         println!("  observed: {}", ev.note);
         for k in &ev.known {
             println!("KNOWN-FINDING: property={} matches {}", prop, k);
